@@ -137,6 +137,26 @@ CHECKS['C15'] = dict(
               'evaluation',
     thorough=True)
 
+CHECKS['C07'] = dict(
+    category='other',
+    text='Proved on all paths: the main loop only hands _read_content a '
+         'length that is an int in [0, sys.maxsize] (else DiffXParseError at '
+         'the header line); _read_content consumes exactly min(length, '
+         'available) bytes from the position _read_until restored, whatever '
+         'they contain, and _process_content never touches the stream. One '
+         'obligation - a short read never yields a record - fails on the '
+         'pinned tree and is recorded as a known finding (a pinned test '
+         'forbids the repair). The relational statement over truncation '
+         'points is covered by a bounded enumeration (every cut of generated '
+         'files, perturbed length options), labelled bounded.',
+    design_ref='5/C07',
+    technique='contract-based deductive verification of the length framing '
+              '(one known finding) + bounded truncation sweep',
+    note='Level "other": proved obligations + one known finding + a bounded '
+         'stand-in for the whole-history prefix statement. Trusted: A-io '
+         'stream model, pyvc (A-py), z3/cvc5.',
+    thorough=True)
+
 NOT_YET = 'check not built yet (work in progress; see DESIGN.md section 5)'
 NA = {}
 
